@@ -49,7 +49,7 @@ type params struct {
 }
 
 func (*prop) Cases(seed int64, tier string) []core.Case {
-	nc, n := 16, 4
+	nc, n := 24, 5
 	if tier == "thorough" {
 		nc, n = 64, 12
 	}
